@@ -35,9 +35,12 @@ pub enum Ending {
     OversizedPartialSilent,
     /// header + part of an oversized body, a pause, more of the body (read by the discard loop itself), then close
     OversizedTrickleClose,
+    /// a well-framed request the decoder has to refuse (too few extras for incr, key longer than 250, missing
+    /// key, body shorter than key + extras): the server ends the connection
+    Malformed,
 }
 
-const ENDINGS: [Ending; 13] = [
+const ENDINGS: [Ending; 14] = [
     Ending::ClientClose,
     Ending::Quit,
     Ending::QuitQ,
@@ -51,9 +54,10 @@ const ENDINGS: [Ending; 13] = [
     Ending::MidBodySilent,
     Ending::OversizedPartialSilent,
     Ending::OversizedTrickleClose,
+    Ending::Malformed,
 ];
 
-pub const RULE_C17: &str = "a case is one scenario on a fresh server with connection limit 1..4: a sequence of 3*limit..6*limit connection lifecycles, each ended in one of thirteen ways (client close, quit, quitq, disconnect mid-header / mid-body, invalid magic, oversized item then close, oversized item cut in its body - in one segment or trickled -, idle timeout while idle / inside a body / inside an oversized body, RST; waiting connections may also close or reset before they are served); after every step the monitor demands: no more than `limit` connections have a noop answered while open, free permits (cfg(memcrs_verif) accessor) == limit - open served connections at quiescence (server-side endings are checked while the client socket is still open), a waiting connection is picked up after a slot frees, and at the end `limit` fresh connections are served and one more is not; non-trivial when the limit was reached at least once; distinct by the sequence of ending kinds";
+pub const RULE_C17: &str = "a case is one scenario on a fresh server with connection limit 1..4: a sequence of 3*limit..6*limit connection lifecycles, each ended in one of fourteen ways (a refused malformed request, client close, quit, quitq, disconnect mid-header / mid-body, invalid magic, oversized item then close, oversized item cut in its body - in one segment or trickled -, idle timeout while idle / inside a body / inside an oversized body, RST; waiting connections may also close or reset before they are served); after every step the monitor demands: no more than `limit` connections have a noop answered while open, free permits (cfg(memcrs_verif) accessor) == limit - open served connections at quiescence (server-side endings are checked while the client socket is still open), a waiting connection is picked up after a slot frees, and at the end `limit` fresh connections are served and one more is not; non-trivial when the limit was reached at least once; distinct by the sequence of ending kinds";
 
 struct Slot {
     cli: Cli,
@@ -233,6 +237,30 @@ fn scenario_c17(ctx: &Ctx, case: u64, local: &mut BTreeMap<String, u64>) -> (Vec
             Ending::BadMagic => {
                 let mut f = wire::get(op::GET, b"k", 1);
                 f.magic = 0x55;
+                let _ = c.s.write_all(&f.encode());
+                c.read_to_end(Duration::from_secs(3));
+                keep = Some(c);
+            }
+            Ending::Malformed => {
+                let mut f = match opq % 4 {
+                    0 => {
+                        // incr with 16 bytes of extras instead of 20
+                        let mut f = wire::counter(op::INCR, b"k", 1, 1, 0, 1, 0);
+                        f.extras_len = 16;
+                        f.body.truncate(16 + 1);
+                        f.body_len = 17;
+                        f
+                    }
+                    1 => wire::get(op::GET, &vec![b'k'; 251], 1),
+                    2 => wire::get(op::GET, b"", 1),
+                    _ => {
+                        let mut f = wire::store(op::SET, b"key", b"v", 0, 0, 1, 0);
+                        f.body_len = 5;
+                        f.body.truncate(5);
+                        f
+                    }
+                };
+                f.opaque = 0xbad;
                 let _ = c.s.write_all(&f.encode());
                 c.read_to_end(Duration::from_secs(3));
                 keep = Some(c);
@@ -1216,7 +1244,55 @@ pub fn run_stall(ctx: &Ctx) -> i32 {
                 }
             }
         });
+        // every slot has been used by a connection that the server ended on its receive timeout: the next client
+        // must be served (connections ending by timeout must not wear the server out)
+        let mut touts: Vec<(bool, bool, String)> = vec![];
+        std::thread::scope(|s| {
+            let hs: Vec<_> = [false, true]
+                .into_iter()
+                .map(|multi| {
+                    s.spawn(move || -> Option<(bool, bool, String)> {
+                        let srv = Server::start(SrvCfg { idle_s: 1, item_limit: 1024, workers: if multi { Some(2) } else { None }, conn_limit: 2, ..Default::default() }).ok()?;
+                        for round in 0..2 {
+                            let mut idle: Vec<Cli> = vec![];
+                            for i in 0..2u32 {
+                                let mut c = Cli::connect(srv.port).ok()?;
+                                if round == 0 {
+                                    let _ = ask(&mut c, &wire::simple(op::NOOP, 1 + i));
+                                }
+                                idle.push(c);
+                            }
+                            for c in idle.iter_mut() {
+                                c.read_to_end(Duration::from_secs(5));
+                            }
+                        }
+                        let mut obs = Cli::connect_plain(srv.port).ok()?;
+                        use std::io::Write;
+                        let _ = obs.s.write_all(&wire::simple(op::NOOP, 400).encode());
+                        obs.read_frames(1, Duration::from_secs(10));
+                        let ok = parse_prefix(&obs.rx).iter().any(|r| r.opaque == 400);
+                        Some((multi, ok, format!("{:?}", obs.end)))
+                    })
+                })
+                .collect();
+            for h in hs {
+                if let Ok(Some(o)) = h.join() {
+                    touts.push(o);
+                }
+            }
+        });
         let mut e = shared.lock().unwrap();
+        for (multi, ok, end) in touts {
+            e.evaluations += 1;
+            e.count("stall:after_timeouts_scenarios", 1);
+            e.nontrivial.insert(fnv(format!("after-timeouts:{}", multi).as_bytes()));
+            if !ok {
+                e.violation(
+                    Viol::new(&["C16", "C17"], "timeouts-wear-out-the-server", format!("connection limit 2 on a {} server; four connections in turn were ended by the server on its 1 s receive timeout; a client arriving afterwards got no answer to a noop within 10 s (its connection: {})", if multi { "2-worker" } else { "current-thread" }, end)),
+                    json!({"engine":"stall-after-timeouts","multi_thread":multi}),
+                );
+            }
+        }
         for (multi, limit, answered, note) in outs {
             e.evaluations += 1;
             e.count("stall:silent_waiter_scenarios", 1);
